@@ -30,6 +30,7 @@ const proc = "echo"
 // attempt plan
 type aplan struct {
 	Lat   int  `json:"lat"`   // ms before the handler returns (its normal reply is sent right after)
+	LatUs int  `json:"latus"` // additional microseconds (may be negative) for the racing batches
 	Late  bool `json:"late"`  // classification: true = well after the timeout, false = well before
 	Early bool `json:"early"` // crafted reply with the right ID sent immediately, before the handler sleeps
 	Dups  int  `json:"dups"`  // duplicates of the normal reply (same ID), sent DupGap ms after the normal one each
@@ -41,12 +42,14 @@ type callPlan struct {
 	Call     int     `json:"call"`
 	Attempts []aplan `json:"attempts"` // exactly retries+1 entries
 	CancelMs int     `json:"cancel"`   // cancel the context after this many ms (0 = never)
+	StartMs  int     `json:"start"`    // delay before the call is issued (follow-up calls of a racing batch)
 	Strict   bool    `json:"strict"`   // latencies have wide margins: the outcome is determined by the plan
 }
 
 type callRec struct {
 	K         string   `json:"k"`
 	Batch     int      `json:"batch"`
+	BKind     string   `json:"bkind"` // kind of the batch the call ran in (the held-lock kinds are replayed with the hold)
 	TimeoutMs int      `json:"timeout_ms"`
 	Plan      callPlan `json:"plan"`
 	Class     string   `json:"class"`    // ok | timeout | cancelled | other | hang
@@ -55,6 +58,8 @@ type callRec struct {
 	PayKind   string   `json:"pay_kind"` // N normal, E early, D duplicate, W wrong-id, ? unparsable
 	PayCall   int      `json:"pay_call"` // call number in the delivered payload
 	Attempts  int      `json:"attempts"` // requests of this call seen by the responder
+	Accepted  []int    `json:"accepted"` // per attempt: responses accepted into the attempt's channel by the requester's onResponse
+	Seen      []int    `json:"seen"`     // per attempt: responses carrying the attempt's ID decoded by the requester's onResponse
 	ElapsedMs int      `json:"elapsed_ms"`
 	Panic     string   `json:"panic,omitempty"`
 }
@@ -72,7 +77,8 @@ type batchRec struct {
 
 type responder struct {
 	mu    sync.Mutex
-	seen  map[int]int // call -> attempts seen
+	seen  map[int]int      // call -> attempts seen
+	ids   map[int][]string // call -> request ID of every attempt
 	node  *p2p.VerifC17Node
 	reqer func() p2p.PeerID
 	wg    sync.WaitGroup
@@ -87,6 +93,7 @@ func (r *responder) handler(w p2p.ResponseWriter, req *p2p.Request) {
 	r.mu.Lock()
 	r.seen[cp.Call]++
 	att := r.seen[cp.Call]
+	r.ids[cp.Call] = append(r.ids[cp.Call], req.ID)
 	r.mu.Unlock()
 	idx := att - 1
 	if idx >= len(cp.Attempts) {
@@ -102,8 +109,8 @@ func (r *responder) handler(w p2p.ResponseWriter, req *p2p.Request) {
 	if pl.Early {
 		_ = r.node.Respond(ctx, to, req.ID, proc, pay("E"))
 	}
-	if pl.Lat > 0 {
-		time.Sleep(time.Duration(pl.Lat) * time.Millisecond)
+	if d := time.Duration(pl.Lat)*time.Millisecond + time.Duration(pl.LatUs)*time.Microsecond; d > 0 {
+		time.Sleep(d)
 	}
 	if pl.Dups > 0 {
 		id := req.ID
@@ -142,7 +149,7 @@ type env struct {
 }
 
 func newEnv(timeout time.Duration) *env {
-	r := &responder{seen: map[int]int{}}
+	r := &responder{seen: map[int]int{}, ids: map[int][]string{}}
 	rsp, err := p2p.VerifC17NewNode(0, map[string]p2p.RPCHandler{proc: r.handler})
 	if err != nil {
 		panic(err)
@@ -163,8 +170,30 @@ func newEnv(timeout time.Duration) *env {
 
 func (e *env) close() { e.req.Close(); e.rsp.Close() }
 
+// flood keeps the requester's response handler (and resMu) busy with responses that carry unknown request IDs, from n
+// goroutines, until stop is closed. Only contention: these responses belong to nobody.
+func (e *env) flood(n int, stop chan struct{}) *sync.WaitGroup {
+	var wg sync.WaitGroup
+	for i := 0; i < n; i++ {
+		wg.Add(1)
+		go func(i int) {
+			defer wg.Done()
+			ctx := context.Background()
+			for k := 0; ; k++ {
+				select {
+				case <-stop:
+					return
+				default:
+				}
+				_ = e.rsp.Respond(ctx, e.req.ID(), fmt.Sprintf("flood-%d-%d", i, k), proc, []byte("flood"))
+			}
+		}(i)
+	}
+	return &wg
+}
+
 // runBatch runs all calls concurrently and returns their records (in plan order) and the batch record.
-func runBatch(e *env, batch int, kind string, timeoutMs int, plans []callPlan, settleMs int) ([]callRec, batchRec) {
+func runBatch(e *env, batch int, kind string, timeoutMs int, plans []callPlan, settleMs int, afterCalls func()) ([]callRec, batchRec) {
 	recs := make([]callRec, len(plans))
 	var done int64
 	var wg sync.WaitGroup
@@ -174,7 +203,7 @@ func runBatch(e *env, batch int, kind string, timeoutMs int, plans []callPlan, s
 		go func(i int) {
 			defer wg.Done()
 			cp := plans[i]
-			rec := callRec{K: "call", Batch: batch, TimeoutMs: timeoutMs, Plan: cp}
+			rec := callRec{K: "call", Batch: batch, BKind: kind, TimeoutMs: timeoutMs, Plan: cp}
 			defer func() {
 				if x := recover(); x != nil {
 					rec.Class, rec.Panic = "other", fmt.Sprint(x)
@@ -183,6 +212,9 @@ func runBatch(e *env, batch int, kind string, timeoutMs int, plans []callPlan, s
 				atomic.AddInt64(&done, 1)
 			}()
 			data, _ := json.Marshal(cp)
+			if cp.StartMs > 0 {
+				time.Sleep(time.Duration(cp.StartMs) * time.Millisecond)
+			}
 			ctx, cancel := context.WithCancel(context.Background())
 			defer cancel()
 			if cp.CancelMs > 0 {
@@ -209,6 +241,9 @@ func runBatch(e *env, batch int, kind string, timeoutMs int, plans []callPlan, s
 		}(i)
 	}
 	wg.Wait()
+	if afterCalls != nil {
+		afterCalls()
+	}
 	// let late replies and duplicates arrive, then look at the tables
 	time.Sleep(time.Duration(settleMs) * time.Millisecond)
 	e.r.wg.Wait()
@@ -219,6 +254,12 @@ func runBatch(e *env, batch int, kind string, timeoutMs int, plans []callPlan, s
 	e.r.mu.Lock()
 	for i := range recs {
 		recs[i].Attempts = e.r.seen[recs[i].Plan.Call]
+		recs[i].Accepted, recs[i].Seen = []int{}, []int{}
+		for _, id := range e.r.ids[recs[i].Plan.Call] {
+			seen, unknown, dup := e.req.ResponseStats(id)
+			recs[i].Accepted = append(recs[i].Accepted, seen-unknown-dup)
+			recs[i].Seen = append(recs[i].Seen, seen)
+		}
 		if recs[i].Class == "hang" {
 			br.Hang = true
 		}
@@ -318,6 +359,124 @@ func racePlans(r *hx.Rng, n int, timeoutMs int, base int) []callPlan {
 	return out
 }
 
+// deadlinePlans: every call of the batch starts at the same moment and every reply is timed to land around the requester's
+// deadline with microsecond resolution: handler latency = timeout - o microseconds, o drawn around an adaptive centre (the
+// centre follows the offset at which half of the first attempts are answered in time). All requesters and all response handlers
+// then compete for resMu within the same few hundred microseconds.
+func deadlinePlans(r *hx.Rng, n int, timeoutMs int, centerUs, widthUs int, base int) []callPlan {
+	nAtt := p2p.VerifC17MaxRetries + 1
+	var out []callPlan
+	for i := 0; i < n; i++ {
+		cp := callPlan{Call: base + i + 1, Strict: false}
+		for k := 0; k < nAtt; k++ {
+			o := centerUs - widthUs + r.Intn(2*widthUs+1)
+			if o < 0 {
+				o = 0
+			}
+			cp.Attempts = append(cp.Attempts, aplan{Lat: timeoutMs, LatUs: -o})
+		}
+		out = append(out, cp)
+	}
+	return out
+}
+
+// cancelRacePlans: n racing calls are cancelled after cancelMs while their reply is timed to land around the cancellation
+// (microsecond offsets around an adaptive centre); n follow-up calls with immediate replies are issued right after the
+// cancellations: each must get the reply produced for itself.
+func cancelRacePlans(r *hx.Rng, n int, cancelMs int, centerUs, widthUs int, base int) []callPlan {
+	nAtt := p2p.VerifC17MaxRetries + 1
+	var out []callPlan
+	for i := 0; i < n; i++ {
+		cp := callPlan{Call: base + i + 1, Strict: false, CancelMs: cancelMs}
+		o := centerUs - widthUs + r.Intn(2*widthUs+1)
+		if o < 0 {
+			o = 0
+		}
+		for k := 0; k < nAtt; k++ {
+			cp.Attempts = append(cp.Attempts, aplan{Lat: cancelMs, LatUs: -o})
+		}
+		out = append(out, cp)
+	}
+	for i := 0; i < n; i++ {
+		cp := callPlan{Call: base + n + i + 1, Strict: true, StartMs: cancelMs + r.Intn(4)}
+		for k := 0; k < nAtt; k++ {
+			cp.Attempts = append(cp.Attempts, aplan{})
+		}
+		out = append(out, cp)
+	}
+	return out
+}
+
+// heldTimeoutPlans: the reply arrives early (5 ms) but resMu is held (by the harness, standing for a response handler descheduled
+// inside its critical section) from 2 ms until after the requester's deadline: the reply's handler queues on resMu, then the
+// requester (timer fired) queues behind it. A reply accepted before the requester deregisters must be returned.
+func heldTimeoutPlans(n int, base int) []callPlan {
+	nAtt := p2p.VerifC17MaxRetries + 1
+	var out []callPlan
+	for i := 0; i < n; i++ {
+		cp := callPlan{Call: base + i + 1, Strict: false}
+		for k := 0; k < nAtt; k++ {
+			a := aplan{Lat: 5}
+			if i%2 == 1 {
+				// surplus responses for the same request: the reply and two duplicates, all queued on resMu before the requester
+				a.Dups, a.DupMs = 2, 0
+			}
+			cp.Attempts = append(cp.Attempts, a)
+		}
+		out = append(out, cp)
+	}
+	return out
+}
+
+// heldCancelPlans: as above, but the racing calls are cancelled while resMu is held (reply queued first, the cancelled requester
+// behind it); follow-up calls issued after the release must each get the reply produced for themselves.
+func heldCancelPlans(n, followups int, cancelMs, followMs int, base int) []callPlan {
+	nAtt := p2p.VerifC17MaxRetries + 1
+	var out []callPlan
+	for i := 0; i < n; i++ {
+		cp := callPlan{Call: base + i + 1, Strict: false, CancelMs: cancelMs}
+		for k := 0; k < nAtt; k++ {
+			cp.Attempts = append(cp.Attempts, aplan{Lat: 5})
+		}
+		out = append(out, cp)
+	}
+	for i := 0; i < followups; i++ {
+		cp := callPlan{Call: base + n + i + 1, Strict: true, StartMs: followMs + i%8}
+		for k := 0; k < nAtt; k++ {
+			cp.Attempts = append(cp.Attempts, aplan{})
+		}
+		out = append(out, cp)
+	}
+	return out
+}
+
+// adapt moves the centre towards the offset at which half of the racing first attempts are answered in time.
+func adapt(recs []callRec, center, round int) int {
+	early, late := 0, 0
+	for _, rec := range recs {
+		if rec.Plan.Strict {
+			continue
+		}
+		if rec.Class == "ok" && rec.PayAtt == 1 {
+			early++
+		} else {
+			late++
+		}
+	}
+	if early+late == 0 {
+		return center
+	}
+	step := 160 / (1 + round/3)
+	if step < 15 {
+		step = 15
+	}
+	center += step * (2*late - (early + late)) / (early + late)
+	if center < 0 {
+		center = 0
+	}
+	return center
+}
+
 func main() {
 	out := flag.String("out", "", "output JSONL")
 	in := flag.String("in", "", "replay: JSONL of call records; their plans are re-run one batch per distinct (batch,timeout)")
@@ -327,6 +486,12 @@ func main() {
 	raceCalls := flag.Int("racecalls", 16, "concurrent calls per racing round")
 	timeoutMs := flag.Int("timeout", 300, "requester timeout for the deterministic batches, ms")
 	raceTimeoutMs := flag.Int("racetimeout", 8, "requester timeout for the racing batches, ms")
+	dlRounds := flag.Int("deadline", 10, "rounds of the deadline batch (replies within microseconds of the timer, all calls at once)")
+	dlCalls := flag.Int("dlcalls", 48, "concurrent calls per deadline round")
+	crRounds := flag.Int("cancelrace", 10, "rounds of the cancel-race batch (replies within microseconds of the cancellation + follow-up calls)")
+	heldRounds := flag.Int("held", 3, "rounds of the held-lock batches (resMu held across the deadline / the cancellation)")
+	nflood := flag.Int("flood", 0, "goroutines flooding the requester with unknown-ID responses during the deadline / cancel-race rounds")
+	crCalls := flag.Int("crcalls", 32, "racing calls per cancel-race round (plus as many follow-up calls)")
 	flag.Parse()
 	if *out == "" {
 		fmt.Fprintln(os.Stderr, "-out required")
@@ -348,6 +513,7 @@ func main() {
 		}
 		groups := map[string][]callPlan{}
 		tmo := map[string]int{}
+		kinds := map[string]string{}
 		var order []string
 		for _, line := range strings.Split(string(data), "\n") {
 			if strings.TrimSpace(line) == "" {
@@ -357,7 +523,8 @@ func main() {
 			if err := json.Unmarshal([]byte(line), &rec); err != nil || rec.K != "call" {
 				continue
 			}
-			key := fmt.Sprintf("%d/%d", rec.Batch, rec.TimeoutMs)
+			key := fmt.Sprintf("%d/%d/%s", rec.Batch, rec.TimeoutMs, rec.BKind)
+			kinds[key] = rec.BKind
 			if _, ok := groups[key]; !ok {
 				order = append(order, key)
 			}
@@ -366,7 +533,22 @@ func main() {
 		}
 		for bi, key := range order {
 			e := newEnv(time.Duration(tmo[key]) * time.Millisecond)
-			recs, br := runBatch(e, bi+1, "replay", tmo[key], groups[key], 2*tmo[key]+150)
+			kind := "replay"
+			switch kinds[key] {
+			case "held-timeout":
+				kind = "held-timeout"
+				go func(d int) {
+					time.Sleep(2 * time.Millisecond)
+					e.req.HoldResMu(time.Duration(d+25) * time.Millisecond)
+				}(tmo[key])
+			case "held-cancel":
+				kind = "held-cancel"
+				go func() {
+					time.Sleep(2 * time.Millisecond)
+					e.req.HoldResMu(48 * time.Millisecond)
+				}()
+			}
+			recs, br := runBatch(e, bi+1, kind, tmo[key], groups[key], 2*tmo[key]+150, nil)
 			for _, rec := range recs {
 				o.Put(rec)
 			}
@@ -383,7 +565,7 @@ func main() {
 		batch++
 		e := newEnv(time.Duration(*timeoutMs) * time.Millisecond)
 		plans := detPlans(r, *ndet, *timeoutMs, batch*1000)
-		recs, br := runBatch(e, batch, "det", *timeoutMs, plans, 2*(*timeoutMs)+150)
+		recs, br := runBatch(e, batch, "det", *timeoutMs, plans, 2*(*timeoutMs)+150, nil)
 		for _, rec := range recs {
 			o.Put(rec)
 		}
@@ -392,12 +574,101 @@ func main() {
 			e.close()
 		}
 	}
+	if *heldRounds > 0 {
+		// (a) resMu held across the deadline
+		const hTimeout = 60
+		e := newEnv(hTimeout * time.Millisecond)
+		for i := 0; i < *heldRounds; i++ {
+			batch++
+			plans := heldTimeoutPlans(12, batch*1000)
+			go func() {
+				time.Sleep(2 * time.Millisecond)
+				e.req.HoldResMu((hTimeout + 25) * time.Millisecond)
+			}()
+			recs, br := runBatch(e, batch, "held-timeout", hTimeout, plans, 2*hTimeout+30, nil)
+			for _, rec := range recs {
+				o.Put(rec)
+			}
+			o.Put(br)
+			if br.Hang {
+				return
+			}
+		}
+		e.close()
+		// (b) resMu held across the cancellation, follow-up calls afterwards
+		e = newEnv(300 * time.Millisecond)
+		for i := 0; i < *heldRounds; i++ {
+			batch++
+			plans := heldCancelPlans(16, 32, 30, 60, batch*1000)
+			go func() {
+				time.Sleep(2 * time.Millisecond)
+				e.req.HoldResMu(48 * time.Millisecond)
+			}()
+			recs, br := runBatch(e, batch, "held-cancel", 300, plans, 80, nil)
+			for _, rec := range recs {
+				o.Put(rec)
+			}
+			o.Put(br)
+			if br.Hang {
+				return
+			}
+		}
+		e.close()
+	}
+	if *dlRounds > 0 {
+		const dlTimeout = 20
+		e := newEnv(dlTimeout * time.Millisecond)
+		center, width := 1000, 300
+		for i := 0; i < *dlRounds; i++ {
+			batch++
+			plans := deadlinePlans(r, *dlCalls, dlTimeout, center, width, batch*1000)
+			stop := make(chan struct{})
+			fw := e.flood(*nflood, stop)
+			recs, br := runBatch(e, batch, "deadline", dlTimeout, plans, 4*dlTimeout+30, func() { close(stop); fw.Wait() })
+			for _, rec := range recs {
+				o.Put(rec)
+			}
+			o.Put(br)
+			if br.Hang {
+				return
+			}
+			center = adapt(recs, center, i)
+			if width > 120 {
+				width -= 40
+			}
+		}
+		e.close()
+	}
+	if *crRounds > 0 {
+		const crCancel = 12
+		e := newEnv(300 * time.Millisecond)
+		center, width := 1000, 300
+		for i := 0; i < *crRounds; i++ {
+			batch++
+			plans := cancelRacePlans(r, *crCalls, crCancel, center, width, batch*1000)
+			stop := make(chan struct{})
+			fw := e.flood(*nflood, stop)
+			recs, br := runBatch(e, batch, "cancelrace", 300, plans, 60, func() { close(stop); fw.Wait() })
+			for _, rec := range recs {
+				o.Put(rec)
+			}
+			o.Put(br)
+			if br.Hang {
+				return
+			}
+			center = adapt(recs, center, i)
+			if width > 120 {
+				width -= 40
+			}
+		}
+		e.close()
+	}
 	if *raceRounds > 0 {
 		e := newEnv(time.Duration(*raceTimeoutMs) * time.Millisecond)
 		for i := 0; i < *raceRounds; i++ {
 			batch++
 			plans := racePlans(r, *raceCalls, *raceTimeoutMs, batch*1000)
-			recs, br := runBatch(e, batch, "race", *raceTimeoutMs, plans, 4*(*raceTimeoutMs)+30)
+			recs, br := runBatch(e, batch, "race", *raceTimeoutMs, plans, 4*(*raceTimeoutMs)+30, nil)
 			for _, rec := range recs {
 				o.Put(rec)
 			}
